@@ -125,6 +125,7 @@ class SimCtl:
         self.conc = Conc(conc)
         self.end_t, self.warm_t = end_t, warm_t
         self.sim = self.conc.sim()
+        self.strategy = strategy
         self.sim.set_error_strategy(STRATEGY[strategy])
         self.model = (model_factory or _Model)(self.sim, self)
         self.listener = _Listener(self)
@@ -143,6 +144,7 @@ class SimCtl:
         self.alt = 0
         self.errors = []
         self.extra_on_handler = None
+        self.obs = []
 
     # ------------------------------------------------------------------ recording
     def rec(self, e):
@@ -203,7 +205,10 @@ class SimCtl:
         self.executed.append((k, clk))
         self.rec({"a": "Exec", "id": k, "clk": clk, "kind": "H", "ops": h["ops"], "res": res,
                   "raise": bool(h["raise"]), "info": info})
-        self._maybe_pause()
+        if h["raise"] and self.strategy == "pause":
+            self.seg_count += 1      # the fault itself pauses the run: no stop() rendezvous here
+        else:
+            self._maybe_pause()
         if h["raise"]:
             raise RuntimeError(f"injected fault in handler {k}")
 
@@ -276,6 +281,7 @@ class SimCtl:
     def initialize(self):
         self.events, self.next_rank, self.executed = {}, 0, []
         self.seg_count, self.pause_at = 0, None
+        self.obs = []
         old = self.worker()
         c = self.conc
         repl = SingleReplication("rep", c.t(0), c.t(self.warm_t), c.t(self.end_t))
@@ -370,9 +376,13 @@ class SimCtl:
         pend, known = self.pending_ranks()
         w = self.worker()
         alive = 1 if (w is not None and w.is_alive()) else 0
+        stats = ""
+        if hasattr(self.model, "digest") and sim.run_state.name == "ENDED":
+            import json as _json
+            stats = _json.dumps({"digest": self.model.digest(), "registry": self.model.registry_ok()}, sort_keys=True)
         return self.rec({"a": "Quiescent", "rs": sim.run_state.name, "rep": sim.replication_state.name,
                          "clock": self.conc.back(sim.simulator_time), "pending": pend, "pending_known": known,
-                         "alive": alive, "executed": [list(x) for x in self.executed]})
+                         "alive": alive, "stats": stats, "executed": [list(x) for x in self.executed]})
 
     def dispose(self):
         try:
